@@ -171,6 +171,7 @@ def run_case(spec, impl_exe, model_cmd, case):
     text = case.text()
     rc, lines, err = C.run_lines([impl_exe], text)
     ig, itail = C.split_by_op(lines)
+    case.meta["raw_impl"] = ig
     ig = spec.canon_impl(ig)
     out = {"impl_rc": rc, "impl": ig, "impl_err": err, "impl_tail": itail, "diff": None}
     if model_cmd:
